@@ -1,4 +1,4 @@
-From CubedV Require Import Model.Util Model.Keys Model.Fusion Model.Memory Model.Dag Proofs.MemoryProofs.
+From CubedV Require Import Model.Util Model.Keys Model.Fusion Model.Memory Model.Dag Model.FuseGuard Proofs.MemoryProofs Proofs.FuseGuardProofs.
 Local Open Scope Z_scope.
 
 (* -- Memory.v -------------------------------------------------------------- *)
@@ -146,3 +146,53 @@ Example C04_ex_fused_preds_dominate : fused_projected 500 [(1000, 100); (950, 50
 Proof. vm_compute; reflexivity. Qed.
 Example C04_ex_legacy_fused : legacy_fused_projected 300 700 = 700.
 Proof. vm_compute; reflexivity. Qed.
+
+(* -- FuseGuard.v: the fusion guards in the shape the source is translated into on every run ------------------------- *)
+Theorem C04_source_guard_view : forall B (p : primop B) pps m,
+  can_fuse_multipleZ (zview p) (map (option_map zview) pps) (option_map Z.of_nat m) = can_fuse_multiple B p pps m.
+Proof. exact (can_fuse_multipleZ_view). Qed.
+Print Assumptions C04_source_guard_view.
+
+Theorem C04_source_fused_fields_view : forall B (p : primop B) pps,
+  fuse_multiple_fieldsZ (zview p) (map (option_map zview) pps)
+  = (proj B (fuse_multiple B p pps), allowed B (fuse_multiple B p pps), reserved B (fuse_multiple B p pps),
+     Z.of_nat (ntasks B (fuse_multiple B p pps))).
+Proof. exact (fuse_multiple_fieldsZ_view). Qed.
+Print Assumptions C04_source_fused_fields_view.
+
+Theorem C04_guardZ : forall p pps m,
+  can_fuse_multipleZ p pps m = true ->
+  peak_projected (map (fun pp => (v_proj pp, v_chunkmem pp)) (somesZ pps)) <= v_allowed p.
+Proof. exact (can_fuse_multipleZ_guard). Qed.
+Print Assumptions C04_guardZ.
+
+Theorem C04_fused_fields_fit : forall p pps m,
+  can_fuse_multipleZ p pps m = true -> v_proj p <= v_allowed p ->
+  let '(pr, al, _, _) := fuse_multiple_fieldsZ p pps in pr <= al.
+Proof. exact (fused_fieldsZ_fit). Qed.
+Print Assumptions C04_fused_fields_fit.
+
+Theorem C04_fused_fields_not_under : forall p pps,
+  let '(pr, _, _, _) := fuse_multiple_fieldsZ p pps in
+  v_proj p <= pr /\ peak_projected (map (fun pp => (v_proj pp, v_chunkmem pp)) (somesZ pps)) <= pr.
+Proof. exact (fused_fieldsZ_not_under). Qed.
+Print Assumptions C04_fused_fields_not_under.
+
+Theorem C04_only_candidates_fused : forall p pps m,
+  can_fuse_multipleZ p pps m = true ->
+  is_fuse_candidateZ p = true /\ forall pp, In (Some pp) pps -> is_fuse_candidateZ pp = true.
+Proof. exact (can_fuse_multipleZ_candidates). Qed.
+Print Assumptions C04_only_candidates_fused.
+
+(* non-vacuity: an operation of 3 tasks reading 2 blocks per task from a fused predecessor that reads 2 *)
+Example C04_guardZ_example :
+  let pre := {| v_bw := true; v_fpred := true; v_fsucc := true; v_ntasks := 3; v_proj := 700; v_allowed := 1000; v_reserved := 100;
+                v_nib := [2]; v_chunkmem := 200 |} in
+  let op := {| v_bw := true; v_fpred := true; v_fsucc := true; v_ntasks := 3; v_proj := 900; v_allowed := 1000; v_reserved := 100;
+               v_nib := [2; 1]; v_chunkmem := 200 |} in
+  can_fuse_multipleZ op [Some pre; None] None = true /\ can_fuse_multipleZ op [Some pre; None] (Some 3) = false /\
+  can_fuse_multipleZ op [Some pre; None] (Some 4) = true /\
+  fuse_multiple_fieldsZ op [Some pre; None] = (900, 1000, 100, 3) /\
+  can_fuse_multipleZ {| v_bw := true; v_fpred := true; v_fsucc := true; v_ntasks := 3; v_proj := 900; v_allowed := 699; v_reserved := 100;
+               v_nib := [2; 1]; v_chunkmem := 200 |} [Some pre; None] None = false.
+Proof. vm_compute. repeat split. Qed.
